@@ -179,11 +179,16 @@ class CoreDriver:
         return fut
 
     # -- steps -------------------------------------------------------------------
-    def step(self, st):
+    def step(self, st, settle=True):
         """Execute one schedule step; returns False if it was not applicable."""
         op = st[0]
         net = self.net
         ok = True
+        if op == "nq":  # execute the inner step without letting the server run
+            return self.step(st[1], settle=False)
+        if op == "iter":  # let the event loop run exactly n iterations
+            self.loop.run_iterations(st[1])
+            return True
         if op == "connect":
             s = st[1]
             if s in self.sess or self.w.server.server.closed:
@@ -287,8 +292,9 @@ class CoreDriver:
         if not ok:
             self.skipped += 1
             return False
-        self.loop.run_quiescent()
-        self.snap()
+        if settle:
+            self.loop.run_quiescent()
+            self.snap()
         return True
 
     def _any_held(self):
